@@ -818,9 +818,25 @@ def mon_c10(tr: Trace, earlier_users: dict[tuple, set] | None = None) -> list[Vi
     for key, lst in per_wait.items():
         if len(users.get((key[0], key[3]), ())) > 1:
             continue
-        if len(lst) > 1:
-            kinds = [k for k, _ in lst]
-            out.append(Violation("C10/resumed_more_than_once", f"wait {key} of one invocation finished {len(lst)} times: {kinds}", case))
+        # a body with several waits is re-executed from the top for each later wait: an earlier wait then yields
+        # the SAME outcome again (the same event, or TimeoutError again).  One wait, two different outcomes is the violation.
+        outcomes = []
+        for k, info in lst:
+            o = (k, info.get("got_uid"))
+            if o not in outcomes:
+                outcomes.append(o)
+        if len(outcomes) > 1:
+            out.append(Violation("C10/resumed_more_than_once", f"wait {key} of one invocation finished with {len(outcomes)} different outcomes: {outcomes}", case))
+    # ... and the waiting step completes at most once per input event and attempt
+    done_ok: dict[tuple, int] = {}
+    wait_steps = {s["name"] for s in tr.spec["steps"] if any(a[0] == "wait" for a in s["script"])}
+    for rec in tr.steps:
+        if rec[0] == "exit" and rec[1] in wait_steps and rec[5].get("status") == "ok":
+            done_ok[(rec[1], rec[2], rec[3])] = done_ok.get((rec[1], rec[2], rec[3]), 0) + 1
+    for (step, uid, rn), n in done_ok.items():
+        wids = {k[3] for k in per_wait if k[0] == step and k[1] == uid}
+        if n > 1 and wids and not any(len(users.get((step, w), ())) > 1 for w in wids):
+            out.append(Violation("C10/resumed_more_than_once", f"step '{step}' completed {n} times for input event {uid} (attempt {rn}) with waits {sorted(map(str, wids))}", case))
     # reducer-level facts on the real ticks: waiter_event and timers only on creation; resolved waiters are left alone
     for c in _runner_calls(tr):
         if c.kind != "reduce" or c.after is None:
